@@ -20,7 +20,9 @@ import genlayer as gl
 UNITS = ["C(N)C", "C(=O)C", "OCC", "CC(F)", "CC(O)", "C(Cl)C", "C(N)C", "CC(F)", "CC", "CC(C)"]
 DISTS = [("gauss", lambda u, r: (r.choice([2, 3, 4.5]) * u, r.choice([0.3, 0.8, 1.5]) * u)), ("uniform", lambda u, r: (int(0.5 * u), int(r.choice([3, 5]) * u))),
          ("poisson", lambda u, r: (r.choice([2.5, 4]) * u,)), ("log_normal", lambda u, r: (r.choice([2, 4]) * u, r.choice([1.1, 1.5]))),
-         ("flory_schulz", lambda u, r: (r.choice([0.1, 0.05 + 1.0 / u]),))]
+         ("flory_schulz", lambda u, r: (r.choice([0.1, 0.05 + 1.0 / u]),)),
+         # Mw <= 2 Mn (z >= 1): outside the shapes of C11's known Schulz-Zimm finding
+         ("schulz_zimm", lambda u, r: (lambda mn: (float(int(mn * r.choice([1.25, 1.6]))), float(int(mn))))(r.choice([2.5, 4]) * u))]
 
 
 def cdf(dist, x):
@@ -28,6 +30,8 @@ def cdf(dist, x):
     name = type(dist).__name__
     if name == "FlorySchulz":
         return float(d.cdf(x, a=dist._a))
+    if name == "SchulzZimm":
+        return float(d.cdf(x, z=dist._z, Mn=dist._Mn))
     if name == "LogNormal":
         return float(d.cdf(x, M=dist._M, D=dist._D)) if x > 0 else 0.0
     return float(d.cdf(x))
